@@ -1,29 +1,91 @@
-import Mav.Model.Reader
+import Mav.Model.Writer
 /-
   C07 — signature replay window. Property theorems only.
-  Model: `windowRefuse` / `windowUpdate` (reader.go); Spec: `Spec.refuse` / `Spec.newest` over ℕ.
+  Model: `Gen.windowRefuse` / `Gen.windowUpdate`, regenerated from reader.go (TIE-G, G-expr);
+  Spec: `Spec.refuse` / `Spec.newest` over ℕ (Mav/Spec/Window.lean).
 -/
 namespace Mav.C07
 open Mav
 
 /-- the remembered value is the maximum of the accepted timestamps -/
 theorem update_is_max (cur ts : UInt64) : windowUpdate cur ts = Spec.newest cur ts := by
-  simp [windowUpdate, Spec.newest, UInt64.lt_iff_toNat_lt]
+  simp [windowUpdate, Gen.windowUpdate, Spec.newest, UInt64.lt_iff_toNat_lt]
 
-/-- PARTIAL (unchanged tree): the model's decision equals the spec's when the remembered timestamp is 0
-    (nothing accepted yet, or only timestamp 0) or at least 10^6. -/
-theorem window_exact_partial (cur ts : UInt64) (h : cur = 0 ∨ cur.toNat ≥ 1000000) :
-    windowRefuse cur ts = Spec.refuse cur ts := by
-  rcases h with h | h
-  · subst h; simp [windowRefuse, Spec.refuse]
-  · have hpos : cur > 0 := by rw [gt_iff_lt, UInt64.lt_iff_toNat_lt]; simp; omega
-    have hsub : (cur - Gen.replayWindow).toNat = cur.toNat - 1000000 := by
-      rw [UInt64.toNat_sub_of_le]
-      · rfl
-      · rw [UInt64.le_iff_toNat_le]; exact h
-    simp only [windowRefuse, Spec.refuse, hpos, decide_true, Bool.true_and, UInt64.lt_iff_toNat_lt, hsub]
-    congr 1
-    apply propext
-    omega
+/-- **C07 (one decision).** For every 48-bit timestamp and every remembered value the code's decision is the
+    spec's: refuse iff `ts + 1 000 000 < newest` (over ℕ — no wrap-around). -/
+theorem window_exact (cur ts : UInt64) (hts : ts.toNat < 2 ^ 48) : windowRefuse cur ts = Spec.refuse cur ts := by
+  have hadd : (ts + 1000000).toNat = ts.toNat + 1000000 := by
+    rw [UInt64.toNat_add]
+    have : ts.toNat + (1000000 : UInt64).toNat < 2 ^ 64 := by
+      have : (1000000 : UInt64).toNat = 1000000 := rfl
+      omega
+    simpa using Nat.mod_eq_of_lt this
+  simp only [windowRefuse, Gen.windowRefuse, Spec.refuse, UInt64.lt_iff_toNat_lt, hadd]
+  have h0 : (0 : UInt64).toNat = 0 := rfl
+  rw [h0]
+  by_cases h : ts.toNat + 1000000 < cur.toNat
+  · have : 0 < cur.toNat := by omega
+    simp [h, this]
+  · simp [h]
+
+/-- decisions of the code over a history of correctly signed timestamps (true = refused) -/
+def runModel : UInt64 → List UInt64 → List Bool
+  | _, [] => []
+  | cur, ts :: r => if windowRefuse cur ts then true :: runModel cur r else false :: runModel (windowUpdate cur ts) r
+
+/-- decisions of the specification -/
+def runSpec : UInt64 → List UInt64 → List Bool
+  | _, [] => []
+  | cur, ts :: r => if Spec.refuse cur ts then true :: runSpec cur r else false :: runSpec (Spec.newest cur ts) r
+
+/-- **C07 (every history).** For every remembered start value and every finite history of 48-bit timestamps,
+    the sequence of accept/refuse decisions of the code equals the specification's — reordered and equal
+    timestamps included. Unbounded in the length of the history. -/
+theorem history_exact (cur : UInt64) (hist : List UInt64) (h : ∀ ts ∈ hist, ts.toNat < 2 ^ 48) :
+    runModel cur hist = runSpec cur hist := by
+  induction hist generalizing cur with
+  | nil => rfl
+  | cons ts r ih =>
+    have hts := h ts (by simp)
+    have hr : ∀ t ∈ r, t.toNat < 2 ^ 48 := fun t ht => h t (by simp [ht])
+    simp only [runModel, runSpec, window_exact cur ts hts, update_is_max]
+    split
+    · rw [ih cur hr]
+    · rw [ih _ hr]
+
+/-- the reader's gate uses exactly these two functions (so `history_exact` is about `Reader.Read`) -/
+theorem gate_uses_window (cfg : RCfg) (key : Bytes) (hk : cfg.key = some key) (hw : cfg.specWindow = false)
+    (st : RState) (g : V2Frame) (id : UInt32) (p sg : Bytes) (hm : g.msg = .raw id p) (hs : g.sig = some sg)
+    (hsig : sg = (cfg.H (key ++ g.sigInput p)).take 6) :
+    sigGate cfg st (.v2 g) = if windowRefuse st.cur g.ts then .error .sigOld else .ok { cur := windowUpdate st.cur g.ts } := by
+  subst hsig
+  simp [sigGate, hk, hs, V2Frame.genSignature, hm, hw]
+
+/-- timestamps decoded from the wire are always below 2^48 (six bytes) — the hypothesis of `window_exact` -/
+theorem wire_ts_lt (b0 b1 b2 b3 b4 b5 : UInt8) : (uint48Decode b0 b1 b2 b3 b4 b5).toNat < 2 ^ 48 := by
+  apply Nat.lt_pow_two_of_testBit
+  intro i hi
+  have : (uint48Decode b0 b1 b2 b3 b4 b5).toNat.testBit i = (uint48Decode b0 b1 b2 b3 b4 b5).toBitVec.getLsbD i := rfl
+  rw [this]
+  simp [uint48Decode, Gen.uint48Decode]
+  have a0 : ¬ (i < 8) := by omega
+  have a1 : ¬ (i - 8 < 8) := by omega
+  have a2 : ¬ (i - 16 < 8) := by omega
+  have a3 : ¬ (i - 24 < 8) := by omega
+  have a4 : ¬ (i - 32 < 8) := by omega
+  have a5 : ¬ (i - 40 < 8) := by omega
+  repeat' constructor
+  all_goals (intros; apply BitVec.getLsbD_of_ge; omega)
+
+/-- **C07 (writer units).** Outgoing timestamps are nanoseconds since 2015-01-01 divided by 10 000 (10 µs ticks),
+    hence non-decreasing when the clock is: `a ≤ b → ticks a ≤ ticks b`. -/
+theorem writer_ts_monotone (a b : UInt64) (h : a ≤ b) : sigTicks a ≤ sigTicks b := by
+  simp only [sigTicks, UInt64.le_iff_toNat_le, UInt64.toNat_div] at *
+  exact Nat.div_le_div_right h
+
+theorem writer_ts_units : Gen.sigTickNs = 10000 ∧ Gen.sigTickNsFrameWriter = 10000 ∧ Gen.sigRefUnix = 1420070400 := by decide
+
+/- non-vacuity / regression: the history that the unchanged tree got wrong (newest = 5, then 10) -/
+example : runModel 0 [5, 10, 999999, 2000000, 999999] = [false, false, false, false, true] := by decide
 
 end Mav.C07
